@@ -155,7 +155,9 @@ def analyse(t, hole: Q) -> Q | None:
             return None
         return inner.then(f".{t[2]}")
     if h in ("max", "min"):
-        return analyse(t[1][0] if isinstance(t[1], list) and t[1] and isinstance(t[1][0], list) else t[1], hole)
+        return analyse(t[1], hole)
+    if h == "repeat" and len(t) == 3 and isinstance(t[2], list) and len(t[2]) == 1:
+        return analyse(t[2][0], hole)  # a sequence of values of one shape: analyse the element
     return None
 
 
